@@ -115,3 +115,438 @@ Ltac fld :=
       | |- context [field (bits_of ?w ?v ++ ?rest) ?off ?w'] =>
           rewrite (field_skip w v rest off w') by (cbn; lia)
       end ].
+
+(* ---------------- time stamps at an arbitrary offset ---------------- *)
+
+Lemma ok_pair_inj {A} (x y : A) (i j : iter) : Ok (x, i) = Ok (y, j) -> x = y.
+Proof. intros H; inversion H; reflexivity. Qed.
+
+Lemma enc_pts_aligned flag c : aligned (enc_pts_or_dts flag c) 5.
+Proof. split; [reflexivity | items_ok]. Qed.
+Lemma enc_escr_aligned c : aligned (enc_escr c) 6.
+Proof. split; [reflexivity | items_ok]. Qed.
+
+Lemma pts_located bs k flag base : 0 <= base < 2 ^ 33 ->
+  located bs k (bytes_of_items (enc_pts_or_dts flag (mk_cr base 0))) ->
+  parse_pts_or_dts (mk_iter bs k) = Ok (mk_cr base 0, mk_iter bs (k + 5)).
+Proof.
+  intros Hb Hl. pose proof (pts_roundtrip flag base [] Hb) as R.
+  destruct (aligned_bytes _ _ (enc_pts_aligned flag (mk_cr base 0))) as [Hlen _].
+  unfold parse_pts_or_dts, ibind, next_bytes_nocopy in *.
+  rewrite next_bytes_app in R by (rewrite Hlen; reflexivity).
+  rewrite (next_bytes_located bs k _ 5 ltac:(rewrite Hlen; reflexivity) Hl).
+  unfold iret in *. apply ok_pair_inj in R. rewrite R. reflexivity.
+Qed.
+
+Lemma escr_located bs k base ext : 0 <= base < 2 ^ 33 -> 0 <= ext < 2 ^ 9 ->
+  located bs k (bytes_of_items (enc_escr (mk_cr base ext))) ->
+  parse_escr (mk_iter bs k) = Ok (mk_cr base ext, mk_iter bs (k + 6)).
+Proof.
+  intros Hb He Hl. pose proof (escr_roundtrip base ext [] Hb He) as R.
+  destruct (aligned_bytes _ _ (enc_escr_aligned (mk_cr base ext))) as [Hlen _].
+  unfold parse_escr, ibind, next_bytes_nocopy in *.
+  rewrite next_bytes_app in R by (rewrite Hlen; reflexivity).
+  rewrite (next_bytes_located bs k _ 6 ltac:(rewrite Hlen; reflexivity) Hl).
+  unfold iret in *. apply ok_pair_inj in R. rewrite R. reflexivity.
+Qed.
+
+(* ---------------- trick mode byte ---------------- *)
+
+Lemma b2z_eqb1 v : 0 <= v < 2 -> Z.b2z (v =? 1) = v.
+Proof. intros H. destruct (v =? 1) eqn:E; cbn [Z.b2z]; lia. Qed.
+
+Lemma dsm_byte m b : wf_dsm m -> bits_of 8 b = items_bits (enc_dsm_trick_mode m) ->
+  parse_dsm_trick_mode b = m.
+Proof.
+  destruct m as [fid ft isr rc c]. unfold wf_dsm, enc_dsm_trick_mode, parse_dsm_trick_mode.
+  cbn [DSMTrickMode_FieldID DSMTrickMode_FrequencyTruncation DSMTrickMode_IntraSliceRefresh
+       DSMTrickMode_RepeatControl DSMTrickMode_TrickModeControl].
+  unfold C_TrickModeControlFastForward, C_TrickModeControlFastReverse, C_TrickModeControlFreezeFrame,
+    C_TrickModeControlSlowMotion, C_TrickModeControlSlowReverse.
+  intros [Hc Hf] Hbits. rewrite !bitsf_one, Hbits. clear Hbits.
+  assert (Hc' : c = 0 \/ c = 1 \/ c = 2 \/ c = 3 \/ c = 4 \/ c = 5 \/ c = 6 \/ c = 7) by lia.
+  destruct Hc' as [E|[E|[E|[E|[E|[E|[E|E]]]]]]]; subst c;
+    cbn [Z.eqb Pos.eqb orb] in *; cbn [items_bits flat_map item_bits app];
+    fld; cbn [Z.eqb Pos.eqb orb]; fld.
+  all: destruct Hf as (? & ? & ? & ?); subst; try rewrite b2z_eqb1 by lia; reflexivity.
+Qed.
+
+Lemma enc_dsm_aligned m : aligned (enc_dsm_trick_mode m) 1.
+Proof.
+  unfold enc_dsm_trick_mode. split.
+  - destruct (orb _ _); [reflexivity|]. destruct (_ =? _); [reflexivity|]. destruct (orb _ _); reflexivity.
+  - destruct (orb _ _); [items_ok|]. destruct (_ =? _); [items_ok|]. destruct (orb _ _); items_ok.
+Qed.
+
+(* ---------------- the parts of the optional header ---------------- *)
+
+Section Parts.
+Context (h : PESOptionalHeader) (W : wf_opt h).
+
+(* PTS / DTS *)
+Definition ts_items : list witem :=
+  if PESOptionalHeader_PTSDTSIndicator h =? 2 then
+    enc_pts_or_dts 2 (odflt zero_ClockReference (PESOptionalHeader_PTS h))
+  else if PESOptionalHeader_PTSDTSIndicator h =? 3 then
+    enc_pts_or_dts 3 (odflt zero_ClockReference (PESOptionalHeader_PTS h)) ++
+    enc_pts_or_dts 1 (odflt zero_ClockReference (PESOptionalHeader_DTS h))
+  else [].
+Definition ts_len : Z :=
+  if PESOptionalHeader_PTSDTSIndicator h =? 2 then 5
+  else if PESOptionalHeader_PTSDTSIndicator h =? 3 then 10 else 0.
+
+Lemma ind_cases : PESOptionalHeader_PTSDTSIndicator h = 0 \/ PESOptionalHeader_PTSDTSIndicator h = 1 \/
+  PESOptionalHeader_PTSDTSIndicator h = 2 \/ PESOptionalHeader_PTSDTSIndicator h = 3.
+Proof. pose proof (wf_ind h W). lia. Qed.
+
+Lemma enc_ptsdts_ok : enc_ptsdts h = Ok (ts_items, ts_len).
+Proof.
+  unfold enc_ptsdts, ts_items, ts_len, C_PTSDTSIndicatorOnlyPTS, C_PTSDTSIndicatorBothPresent, C_ptsOrDTSByteLength.
+  pose proof (wf_pts h W) as P. pose proof (wf_dts h W) as D.
+  destruct ind_cases as [E|[E|[E|E]]]; rewrite E in *; cbn [Z.eqb Z.leb Z.compare Pos.eqb Pos.compare Pos.compare_cont] in *.
+  - reflexivity.
+  - reflexivity.
+  - destruct P as (b & _ & ->). reflexivity.
+  - destruct P as (b & _ & ->). destruct D as (d & _ & ->). reflexivity.
+Qed.
+
+Lemma ts_aligned : aligned ts_items (Z.to_nat ts_len).
+Proof.
+  unfold ts_items, ts_len.
+  destruct ind_cases as [E|[E|[E|E]]]; rewrite E; cbn [Z.eqb Pos.eqb].
+  - apply aligned_nil.
+  - apply aligned_nil.
+  - apply enc_pts_aligned.
+  - apply (aligned_app _ _ 5 5); apply enc_pts_aligned.
+Qed.
+
+Lemma ts_piece bs k : located bs k (bytes_of_items ts_items) ->
+  parse_ptsdts (PESOptionalHeader_PTSDTSIndicator h) (mk_iter bs k) =
+  Ok ((PESOptionalHeader_PTS h, PESOptionalHeader_DTS h), mk_iter bs (k + ts_len)).
+Proof.
+  unfold parse_ptsdts, ts_items, ts_len, C_PTSDTSIndicatorOnlyPTS, C_PTSDTSIndicatorBothPresent.
+  pose proof (wf_pts h W) as P. pose proof (wf_dts h W) as D.
+  destruct ind_cases as [E|[E|[E|E]]]; rewrite E in *; cbn [Z.eqb Z.leb Z.compare Pos.eqb Pos.compare Pos.compare_cont] in *; intros Hl.
+  - rewrite P, D. unfold iret. do 3 f_equal. lia.
+  - rewrite P, D. unfold iret. do 3 f_equal. lia.
+  - destruct P as (b & Hb & EP). rewrite EP in *. rewrite D. cbn [odflt] in Hl. unfold cr in *.
+    erewrite ibind_ok by (apply (pts_located bs k 2 b Hb Hl)). reflexivity.
+  - destruct P as (b & Hb & EP). destruct D as (d & Hd & ED). rewrite EP, ED in *. cbn [odflt] in Hl. unfold cr in *.
+    apply (located_items bs k _ _ 5 (enc_pts_aligned _ _)) in Hl; [|apply enc_pts_aligned].
+    destruct Hl as [L1 L2].
+    erewrite ibind_ok by (apply (pts_located bs k 3 b Hb L1)).
+    erewrite ibind_ok by (apply (pts_located bs _ 1 d Hd L2)).
+    unfold iret. do 3 f_equal. lia.
+Qed.
+
+(* ESCR *)
+Definition escr_items : list witem :=
+  if PESOptionalHeader_HasESCR h then enc_escr (odflt zero_ClockReference (PESOptionalHeader_ESCR h)) else [].
+Definition escr_len : Z := if PESOptionalHeader_HasESCR h then 6 else 0.
+
+Lemma enc_escr_opt_ok : enc_escr_opt h = Ok (escr_items, escr_len).
+Proof.
+  unfold enc_escr_opt, escr_items, escr_len. pose proof (wf_es h W) as P.
+  destruct (PESOptionalHeader_HasESCR h); [|reflexivity]. destruct P as (b & e & _ & _ & ->). reflexivity.
+Qed.
+Lemma escr_aligned : aligned escr_items (Z.to_nat escr_len).
+Proof. unfold escr_items, escr_len. destruct (PESOptionalHeader_HasESCR h); [apply enc_escr_aligned | apply aligned_nil]. Qed.
+Lemma escr_piece bs k : located bs k (bytes_of_items escr_items) ->
+  parse_escr_opt (PESOptionalHeader_HasESCR h) (mk_iter bs k) = Ok (PESOptionalHeader_ESCR h, mk_iter bs (k + escr_len)).
+Proof.
+  unfold parse_escr_opt, escr_items, escr_len. pose proof (wf_es h W) as P.
+  destruct (PESOptionalHeader_HasESCR h); intros Hl.
+  - destruct P as (b & e & Hb & He & EP). rewrite EP in *. cbn [odflt] in Hl. unfold cr in *.
+    erewrite ibind_ok by (apply (escr_located bs k b e Hb He Hl)). reflexivity.
+  - rewrite P. unfold iret. do 3 f_equal. lia.
+Qed.
+
+(* ES_rate *)
+Lemma es_rate_aligned : aligned (fst (enc_es_rate h)) (Z.to_nat (snd (enc_es_rate h))).
+Proof.
+  unfold enc_es_rate. destruct (PESOptionalHeader_HasESRate h); cbn [fst snd]; [|apply aligned_nil].
+  split; [reflexivity | items_ok].
+Qed.
+Lemma es_rate_piece bs k : located bs k (bytes_of_items (fst (enc_es_rate h))) ->
+  parse_es_rate (PESOptionalHeader_HasESRate h) (mk_iter bs k) =
+  Ok (PESOptionalHeader_ESRate h, mk_iter bs (k + snd (enc_es_rate h))).
+Proof.
+  pose proof es_rate_aligned as A. revert A.
+  unfold parse_es_rate, enc_es_rate. pose proof (wf_rate h W) as P.
+  destruct (PESOptionalHeader_HasESRate h); cbn [fst snd]; intros A Hl.
+  - destruct (aligned_bytes _ _ A) as [Hlen Hbits].
+    unfold next_bytes_nocopy. erewrite ibind_ok by (apply (next_bytes_located bs k _ 3); [rewrite Hlen; reflexivity | exact Hl]).
+    unfold iret, bitsf. rewrite Hbits. cbn [items_bits flat_map item_bits app].
+    fld. reflexivity.
+  - rewrite P. unfold iret. do 3 f_equal. lia.
+Qed.
+
+(* additional_copy_info *)
+Lemma aci_aligned : aligned (fst (enc_aci h)) (Z.to_nat (snd (enc_aci h))).
+Proof.
+  unfold enc_aci. destruct (PESOptionalHeader_HasAdditionalCopyInfo h); cbn [fst snd]; [|apply aligned_nil].
+  split; [reflexivity | items_ok].
+Qed.
+Lemma aci_piece bs k : located bs k (bytes_of_items (fst (enc_aci h))) ->
+  parse_aci (PESOptionalHeader_HasAdditionalCopyInfo h) (mk_iter bs k) =
+  Ok (PESOptionalHeader_AdditionalCopyInfo h, mk_iter bs (k + snd (enc_aci h))).
+Proof.
+  pose proof aci_aligned as A. revert A.
+  unfold parse_aci, enc_aci. pose proof (wf_aci h W) as P.
+  destruct (PESOptionalHeader_HasAdditionalCopyInfo h); cbn [fst snd]; intros A Hl.
+  - destruct (aligned_one _ A) as (b & Eb & Hbits). rewrite Eb in Hl.
+    erewrite ibind_ok by (apply (next_byte_located bs k b Hl)).
+    unfold iret. rewrite bitsf_one, Hbits. cbn [items_bits flat_map item_bits app].
+    fld. reflexivity.
+  - rewrite P. unfold iret. do 3 f_equal. lia.
+Qed.
+
+(* DSM trick mode *)
+Definition dsm_items : list witem :=
+  if PESOptionalHeader_HasDSMTrickMode h
+  then enc_dsm_trick_mode (odflt zero_DSMTrickMode (PESOptionalHeader_DSMTrickMode h)) else [].
+Definition dsm_len : Z := if PESOptionalHeader_HasDSMTrickMode h then 1 else 0.
+
+Lemma enc_dsm_opt_ok : enc_dsm_opt h = Ok (dsm_items, dsm_len).
+Proof.
+  unfold enc_dsm_opt, dsm_items, dsm_len. pose proof (wf_tm h W) as P.
+  destruct (PESOptionalHeader_HasDSMTrickMode h); [|reflexivity]. destruct P as (m & -> & _). reflexivity.
+Qed.
+Lemma dsm_aligned : aligned dsm_items (Z.to_nat dsm_len).
+Proof. unfold dsm_items, dsm_len. destruct (PESOptionalHeader_HasDSMTrickMode h); [apply enc_dsm_aligned | apply aligned_nil]. Qed.
+Lemma dsm_piece bs k : located bs k (bytes_of_items dsm_items) ->
+  parse_dsm_opt (PESOptionalHeader_HasDSMTrickMode h) (mk_iter bs k) =
+  Ok (PESOptionalHeader_DSMTrickMode h, mk_iter bs (k + dsm_len)).
+Proof.
+  unfold parse_dsm_opt, dsm_items, dsm_len. pose proof (wf_tm h W) as P.
+  destruct (PESOptionalHeader_HasDSMTrickMode h); intros Hl.
+  - destruct P as (m & EP & Hm). rewrite EP in *. cbn [odflt] in Hl.
+    destruct (aligned_one _ (enc_dsm_aligned m)) as (b & Eb & Hbits). rewrite Eb in Hl.
+    erewrite ibind_ok by (apply (next_byte_located bs k b Hl)).
+    unfold iret. rewrite (dsm_byte m b Hm Hbits). reflexivity.
+  - rewrite P. unfold iret. do 3 f_equal. lia.
+Qed.
+
+End Parts.
+
+(* ---------------- the PES extension ---------------- *)
+
+Lemma wbytes_aligned bs : bytes_ok bs -> aligned [WBytes bs] (length bs).
+Proof.
+  intros H. split.
+  - unfold items_bits. cbn [flat_map item_bits]. rewrite app_nil_r. apply bits_of_bytes_length.
+  - constructor; [exact H|constructor].
+Qed.
+Lemma wbytes_bytes bs : bytes_ok bs -> bytes_of_items [WBytes bs] = bs.
+Proof.
+  intros H. rewrite chunks_concat by (constructor; [exact H|constructor]).
+  unfold items_bits. cbn [flat_map item_bits]. rewrite app_nil_r. apply bytes_of_bits_of_bytes. exact H.
+Qed.
+
+Section Ext.
+Context (h : PESOptionalHeader) (W : wf_opt h).
+
+(* private data *)
+Definition pd_items : list witem :=
+  if PESOptionalHeader_HasPrivateData h then enc_private_data (PESOptionalHeader_PrivateData h) else [].
+Definition pd_len : Z := if PESOptionalHeader_HasPrivateData h then 16 else 0.
+Lemma pd_items_eq : pd_items = if PESOptionalHeader_HasPrivateData h then [WBytes (PESOptionalHeader_PrivateData h)] else [].
+Proof.
+  unfold pd_items, enc_private_data. pose proof (wf_pd h W) as P.
+  destruct (PESOptionalHeader_HasPrivateData h); [|reflexivity]. destruct P as [L _].
+  rewrite L. cbn [Z.of_nat Pos.of_succ_nat Pos.succ Z.leb Z.compare Pos.compare Pos.compare_cont].
+  rewrite <- L at 1. rewrite firstn_all. reflexivity.
+Qed.
+Lemma pd_aligned : aligned pd_items (Z.to_nat pd_len).
+Proof.
+  rewrite pd_items_eq. unfold pd_len. pose proof (wf_pd h W) as P.
+  destruct (PESOptionalHeader_HasPrivateData h); [|apply aligned_nil]. destruct P as [L O].
+  change (Z.to_nat 16) with 16%nat. rewrite <- L. apply wbytes_aligned. exact O.
+Qed.
+Lemma pd_piece bs k : located bs k (bytes_of_items pd_items) ->
+  parse_private_data (PESOptionalHeader_HasPrivateData h) (mk_iter bs k) =
+  Ok (PESOptionalHeader_PrivateData h, mk_iter bs (k + pd_len)).
+Proof.
+  rewrite pd_items_eq. unfold parse_private_data, pd_len. pose proof (wf_pd h W) as P.
+  destruct (PESOptionalHeader_HasPrivateData h); intros Hl.
+  - destruct P as [L O]. rewrite wbytes_bytes in Hl by exact O.
+    apply next_bytes_located; [rewrite L; reflexivity | exact Hl].
+  - rewrite P. unfold iret. do 3 f_equal. lia.
+Qed.
+
+(* program packet sequence counter *)
+Definition psc_items : list witem :=
+  if PESOptionalHeader_HasProgramPacketSequenceCounter h
+  then [WBool true; WBits 7 (PESOptionalHeader_PacketSequenceCounter h); WBool true;
+        WBits 1 (PESOptionalHeader_MPEG1OrMPEG2ID h); WBits 6 (PESOptionalHeader_OriginalStuffingLength h)] else [].
+Definition psc_len : Z := if PESOptionalHeader_HasProgramPacketSequenceCounter h then 2 else 0.
+Lemma psc_aligned : aligned psc_items (Z.to_nat psc_len).
+Proof.
+  unfold psc_items, psc_len. destruct (PESOptionalHeader_HasProgramPacketSequenceCounter h); [|apply aligned_nil].
+  split; [reflexivity | items_ok].
+Qed.
+Lemma psc_piece bs k : located bs k (bytes_of_items psc_items) ->
+  parse_psc (PESOptionalHeader_HasProgramPacketSequenceCounter h) (mk_iter bs k) =
+  Ok ((PESOptionalHeader_PacketSequenceCounter h, PESOptionalHeader_MPEG1OrMPEG2ID h,
+       PESOptionalHeader_OriginalStuffingLength h), mk_iter bs (k + psc_len)).
+Proof.
+  pose proof psc_aligned as A. revert A.
+  unfold parse_psc, psc_items, psc_len. pose proof (wf_psc h W) as P.
+  destruct (PESOptionalHeader_HasProgramPacketSequenceCounter h); intros A Hl.
+  - destruct (aligned_bytes _ _ A) as [Hlen Hbits]. destruct P as (P1 & P2 & P3).
+    unfold next_bytes_nocopy. erewrite ibind_ok by (apply (next_bytes_located bs k _ 2); [rewrite Hlen; reflexivity | exact Hl]).
+    unfold iret, bitsf. rewrite Hbits. cbn [items_bits flat_map item_bits app].
+    fld. reflexivity.
+  - destruct P as (-> & -> & ->). unfold iret. do 3 f_equal. lia.
+Qed.
+
+(* P-STD buffer *)
+Definition pstd_items : list witem :=
+  if PESOptionalHeader_HasPSTDBuffer h
+  then [WBits 2 1; WBits 1 (PESOptionalHeader_PSTDBufferScale h); WBits 13 (PESOptionalHeader_PSTDBufferSize h)] else [].
+Definition pstd_len : Z := if PESOptionalHeader_HasPSTDBuffer h then 2 else 0.
+Lemma pstd_aligned : aligned pstd_items (Z.to_nat pstd_len).
+Proof.
+  unfold pstd_items, pstd_len. destruct (PESOptionalHeader_HasPSTDBuffer h); [|apply aligned_nil].
+  split; [reflexivity | items_ok].
+Qed.
+Lemma pstd_piece bs k : located bs k (bytes_of_items pstd_items) ->
+  parse_pstd (PESOptionalHeader_HasPSTDBuffer h) (mk_iter bs k) =
+  Ok ((PESOptionalHeader_PSTDBufferScale h, PESOptionalHeader_PSTDBufferSize h), mk_iter bs (k + pstd_len)).
+Proof.
+  pose proof pstd_aligned as A. revert A.
+  unfold parse_pstd, pstd_items, pstd_len. pose proof (wf_pstd h W) as P.
+  destruct (PESOptionalHeader_HasPSTDBuffer h); intros A Hl.
+  - destruct (aligned_bytes _ _ A) as [Hlen Hbits]. destruct P as (P1 & P2).
+    unfold next_bytes_nocopy. erewrite ibind_ok by (apply (next_bytes_located bs k _ 2); [rewrite Hlen; reflexivity | exact Hl]).
+    unfold iret, bitsf. rewrite Hbits. cbn [items_bits flat_map item_bits app].
+    fld. reflexivity.
+  - destruct P as (-> & ->). unfold iret. do 3 f_equal. lia.
+Qed.
+
+(* extension 2 *)
+Definition e2n : Z := Z.of_nat (length (PESOptionalHeader_Extension2Data h)).
+Definition e2_items : list witem :=
+  if PESOptionalHeader_HasExtension2 h
+  then [WBool true; WBits 7 (e2n mod 256)] ++ [WBytes (PESOptionalHeader_Extension2Data h)] else [].
+Definition e2_len : Z := if PESOptionalHeader_HasExtension2 h then 1 + e2n else 0.
+Lemma e2_aligned : aligned e2_items (Z.to_nat e2_len).
+Proof.
+  unfold e2_items, e2_len, e2n. pose proof (wf_e2 h W) as P.
+  destruct (PESOptionalHeader_HasExtension2 h); [|apply aligned_nil]. destruct P as [L O].
+  replace (Z.to_nat (1 + Z.of_nat (length (PESOptionalHeader_Extension2Data h))))
+    with (1 + length (PESOptionalHeader_Extension2Data h))%nat by lia.
+  apply aligned_app; [split; [reflexivity | items_ok] | apply wbytes_aligned; exact O].
+Qed.
+Lemma e2_piece bs k : located bs k (bytes_of_items e2_items) ->
+  parse_ext2 (PESOptionalHeader_HasExtension2 h) (mk_iter bs k) =
+  Ok ((e2n, PESOptionalHeader_Extension2Data h), mk_iter bs (k + e2_len)).
+Proof.
+  unfold parse_ext2, e2_items, e2_len, e2n. pose proof (wf_e2 h W) as P.
+  destruct (PESOptionalHeader_HasExtension2 h); intros Hl.
+  - destruct P as [L O].
+    set (n := Z.of_nat (length (PESOptionalHeader_Extension2Data h))) in *.
+    assert (A : aligned [WBool true; WBits 7 (n mod 256)] 1) by (split; [reflexivity | items_ok]).
+    apply (located_items bs k _ _ 1 A) in Hl; [|constructor; [exact O|constructor]].
+    destruct Hl as [L1 L2]. rewrite wbytes_bytes in L2 by exact O.
+    destruct (aligned_one _ A) as (b & Eb & Hbits). rewrite Eb in L1.
+    erewrite ibind_ok by (apply (next_byte_located bs k b L1)).
+    rewrite bitsf_one, Hbits. cbn [items_bits flat_map item_bits app].
+    assert (Hn : n mod 256 = n) by (apply Z.mod_small; lia).
+    rewrite Hn. fld.
+    erewrite ibind_ok by (apply (next_bytes_located bs (k + 1) _ n eq_refl L2)).
+    unfold iret. do 3 f_equal. lia.
+  - rewrite P. unfold iret. cbn [length Z.of_nat]. do 3 f_equal. lia.
+Qed.
+
+(* the extension as a whole *)
+Definition ext_flags : list witem :=
+  [WBool (PESOptionalHeader_HasPrivateData h); WBool false;
+   WBool (PESOptionalHeader_HasProgramPacketSequenceCounter h); WBool (PESOptionalHeader_HasPSTDBuffer h);
+   WBits 3 255; WBool (PESOptionalHeader_HasExtension2 h)].
+Definition ext_of : PesExt :=
+  mk_PesExt (PESOptionalHeader_HasPrivateData h) false (PESOptionalHeader_HasProgramPacketSequenceCounter h)
+    (PESOptionalHeader_HasPSTDBuffer h) (PESOptionalHeader_HasExtension2 h)
+    (PESOptionalHeader_PrivateData h) 0
+    (PESOptionalHeader_PacketSequenceCounter h) (PESOptionalHeader_MPEG1OrMPEG2ID h) (PESOptionalHeader_OriginalStuffingLength h)
+    (PESOptionalHeader_PSTDBufferScale h) (PESOptionalHeader_PSTDBufferSize h)
+    e2n (PESOptionalHeader_Extension2Data h).
+
+Lemma ext_items_eq : fst (enc_pes_extension h) =
+  if PESOptionalHeader_HasExtension h then ext_flags ++ pd_items ++ psc_items ++ pstd_items ++ e2_items else [].
+Proof.
+  unfold enc_pes_extension, ext_flags, pd_items, psc_items, pstd_items, e2_items, e2n.
+  destruct (PESOptionalHeader_HasExtension h); [|reflexivity].
+  destruct (PESOptionalHeader_HasPrivateData h), (PESOptionalHeader_HasProgramPacketSequenceCounter h),
+    (PESOptionalHeader_HasPSTDBuffer h), (PESOptionalHeader_HasExtension2 h); reflexivity.
+Qed.
+Lemma ext_len_eq : snd (enc_pes_extension h) =
+  if PESOptionalHeader_HasExtension h then 1 + pd_len + psc_len + pstd_len + e2_len else 0.
+Proof.
+  unfold enc_pes_extension, pd_len, psc_len, pstd_len, e2_len, e2n.
+  destruct (PESOptionalHeader_HasExtension h); [|reflexivity].
+  destruct (PESOptionalHeader_HasPrivateData h), (PESOptionalHeader_HasProgramPacketSequenceCounter h),
+    (PESOptionalHeader_HasPSTDBuffer h), (PESOptionalHeader_HasExtension2 h); reflexivity.
+Qed.
+
+Lemma ext_flags_aligned : aligned ext_flags 1.
+Proof. split; [reflexivity | items_ok]. Qed.
+
+Lemma part_lens_nonneg : 0 <= pd_len /\ 0 <= psc_len /\ 0 <= pstd_len /\ 0 <= e2_len.
+Proof.
+  unfold pd_len, psc_len, pstd_len, e2_len, e2n.
+  destruct (PESOptionalHeader_HasPrivateData h), (PESOptionalHeader_HasProgramPacketSequenceCounter h),
+    (PESOptionalHeader_HasPSTDBuffer h), (PESOptionalHeader_HasExtension2 h); lia.
+Qed.
+
+Lemma ext_aligned : aligned (fst (enc_pes_extension h)) (Z.to_nat (snd (enc_pes_extension h))).
+Proof.
+  rewrite ext_items_eq, ext_len_eq. destruct (PESOptionalHeader_HasExtension h); [|apply aligned_nil].
+  destruct part_lens_nonneg as (N1 & N2 & N3 & N4).
+  replace (Z.to_nat (1 + pd_len + psc_len + pstd_len + e2_len))
+    with (1 + (Z.to_nat pd_len + (Z.to_nat psc_len + (Z.to_nat pstd_len + Z.to_nat e2_len))))%nat by lia.
+  repeat apply aligned_app.
+  - apply ext_flags_aligned.
+  - apply pd_aligned.
+  - apply psc_aligned.
+  - apply pstd_aligned.
+  - apply e2_aligned.
+Qed.
+
+Lemma ext_piece bs k : located bs k (bytes_of_items (fst (enc_pes_extension h))) ->
+  parse_pes_extension (PESOptionalHeader_HasExtension h) (mk_iter bs k) =
+  Ok (ext_of, mk_iter bs (k + snd (enc_pes_extension h))).
+Proof.
+  rewrite ext_items_eq, ext_len_eq. unfold parse_pes_extension.
+  pose proof (wf_ext h W) as X. pose proof (wf_pack h W) as [K1 K2].
+  destruct (PESOptionalHeader_HasExtension h); intros Hl.
+  - destruct part_lens_nonneg as (N1 & N2 & N3 & N4).
+    pose proof pd_aligned as A1. pose proof psc_aligned as A2. pose proof pstd_aligned as A3. pose proof e2_aligned as A4.
+    apply (located_items bs k _ _ 1 ext_flags_aligned) in Hl;
+      [|repeat apply items_bytes_ok_app; [apply A1|apply A2|apply A3|apply A4]].
+    destruct Hl as [L0 Hl].
+    apply (located_items bs _ _ _ _ A1) in Hl; [|repeat apply items_bytes_ok_app; [apply A2|apply A3|apply A4]].
+    destruct Hl as [L1 Hl].
+    apply (located_items bs _ _ _ _ A2) in Hl; [|repeat apply items_bytes_ok_app; [apply A3|apply A4]].
+    destruct Hl as [L2 Hl].
+    apply (located_items bs _ _ _ _ A3) in Hl; [|apply A4].
+    destruct Hl as [L3 L4].
+    rewrite !Z2Nat.id in * by lia.
+    destruct (aligned_one _ ext_flags_aligned) as (b & Eb & Hbits). rewrite Eb in L0.
+    erewrite ibind_ok by (apply (next_byte_located bs k b L0)).
+    rewrite !bitb_one, Hbits. unfold ext_flags. cbn [items_bits flat_map item_bits app].
+    fld.
+    erewrite ibind_ok by (apply (pd_piece bs _ L1)).
+    unfold parse_pack_field. erewrite ibind_ok by reflexivity.
+    erewrite ibind_ok by (apply (psc_piece bs _ L2)). cbv beta iota.
+    erewrite ibind_ok by (apply (pstd_piece bs _ L3)). cbv beta iota.
+    erewrite ibind_ok by (apply (e2_piece bs _ L4)). cbv beta iota.
+    unfold iret, ext_of. do 3 f_equal. lia.
+  - destruct (X eq_refl) as (F1 & F2 & F3 & F4).
+    pose proof (wf_pd h W) as P1. pose proof (wf_psc h W) as P2. pose proof (wf_pstd h W) as P3. pose proof (wf_e2 h W) as P4.
+    unfold ext_of, e2n. rewrite F1 in *. rewrite F2 in *. rewrite F3 in *. rewrite F4 in *.
+    destruct P2 as (-> & -> & ->). destruct P3 as (-> & ->). rewrite P1, P4.
+    unfold iret, zero_PesExt. cbn [length Z.of_nat]. do 3 f_equal. lia.
+Qed.
+
+End Ext.
